@@ -38,8 +38,10 @@ static std::string slurp(const char *path) {
     fclose(f); return s;
 }
 
+static std::vector<int> g_last_schedule;
 static J run_one(const Check &c, const Plan &plan, bool full) {
     RunResult r = sim_run(plan);
+    g_last_schedule = r.schedule;
     J line = J::obj();
     line.set("seed", (unsigned long long)plan.seed);
     Verdict v;
@@ -87,7 +89,11 @@ int main(int argc, char **argv) {
             Plan p = c->gen(s, tier);
             J line = run_one(*c, p, false);
             alarm(0);
-            if (line.getb("violated") || getenv("SIM_PLANS")) line.set("plan", p.to_json());
+            if (line.getb("violated") || getenv("SIM_PLANS")) {
+                // the replay file carries the schedule explicitly (every choice the scheduler made), so that it can be minimised
+                if (g_last_schedule.size()) for (auto &o : p.ops) if (o.op == "Batch" && !o.have_schedule) { o.have_schedule = true; o.schedule = g_last_schedule; }
+                line.set("plan", p.to_json());
+            }
             out_line(line.dump());
             if (line.getb("fatal") || line.getb("violated")) return line.getb("fatal") ? 79 : 0 + 76; // state may be damaged: let the driver restart us
             if (g_asan_reported) return 75;   // the run went on after a memory error: do not trust this process any further
